@@ -66,6 +66,7 @@ def run(ctx):
     mpq = prog.crate("wow_mpq")
     consts = {k: v.get("v") for k, v in mpq.consts().items()}
     fns = {norm(f.path): f for f in mpq.fn_list if f.kind != "Closure" and f.hir}
+    local_fns = {f.path: f for f in mpq.fn_list if f.kind != "Closure" and f.hir}
     R_thr = ctx.rule("C01.raw-vs-compressed-threshold-agrees", "readers decompress exactly when stored < original (strict); equal sizes are raw — the compressor's rule", floor=2)
     R_probe = ctx.rule("C01.probe-loops-agree", "the four probe loops start at hash(name,TABLE_OFFSET) & (size-1), step (i+1) & (size-1), and compare both name hashes", floor=4)
     R_key = ctx.rule("C01.file-key-derivation-agrees", "every reader derives the (position-adjusted) file key with the builder's expression", floor=3)
@@ -232,8 +233,9 @@ def run(ctx):
         if f is None:
             continue
         ctx.saw_fn(f)
-        for x in hirq.walk(f.hir["body"]):
-            if x.get("k") == "bin" and x["op"] == "^" and "wrapping_add" in hirq.render(x):
+        for x, x_ln in hirq.inline_local_calls(f.hir["body"], local_fns, lambda n_: n_.get("k") == "bin" and n_["op"] == "^" and "wrapping_add" in hirq.render(n_), depth=1, skip=re.compile(r"::crypto::|::compression::")):
+            if True:
+                x = dict(x, ln=x_ln or x.get("ln"))
                 sy = symx.Sym(consts)
                 e = sy.ev(x)
                 r = render(e)
@@ -268,11 +270,10 @@ def run(ctx):
         if f is None:
             continue
         inl = _c03.make_inliner(f.hir["body"])
-        for x in hirq.walk(f.hir["body"]):
-            if x.get("k") == "bin" and x["op"] == "^" and "wrapping_add" in hirq.render(x):
-                wa = next((c for c in hirq.walk(x) if c.get("k") == "mcall" and c["m"] == "wrapping_add"), None)
-                posx[path] = (re.sub(r"\b(file_info|info|fi)\b", "FI", hirq.render(inl(wa["args"][0]))), x["ln"], f)
-                break
+        for x, x_ln in hirq.inline_local_calls(f.hir["body"], local_fns, lambda n_: n_.get("k") == "bin" and n_["op"] == "^" and "wrapping_add" in hirq.render(n_), depth=1, skip=re.compile(r"::crypto::|::compression::")):
+            wa = next((c for c in hirq.walk(x) if c.get("k") == "mcall" and c["m"] == "wrapping_add"), None)
+            posx[path] = (re.sub(r"\b(file_info|info|fi)\b", "FI", hirq.render(inl(wa["args"][0]))), x_ln or x["ln"], f)
+            break
     if len(posx) >= 2:
         from collections import Counter
         maj, _n = Counter(v[0] for v in posx.values()).most_common(1)[0]
